@@ -320,3 +320,20 @@ func (p *Program) buildSpecPrelude() (err error) {
 	p.specPrelude = sb.String()
 	return nil
 }
+
+// pkgByName finds a loaded package (or an import of from) by its name.
+func (p *Program) pkgByName(name string, from *types.Package) *types.Package {
+	if from != nil {
+		for _, im := range from.Imports() {
+			if im.Name() == name {
+				return im
+			}
+		}
+	}
+	for _, pk := range p.pkgs {
+		if pk.Types != nil && pk.Types.Name() == name {
+			return pk.Types
+		}
+	}
+	return nil
+}
